@@ -82,6 +82,14 @@ def run(tier, seed, replay=None):
         vals = [(r["cfg"]["entry"], r.get("pobj")) for r in rs]
         objs = [v for e, v in vals if v is not None]
         if objs and max(objs) - min(objs) > 1e-5 * (1 + abs(objs[0])):
+            r0 = rs[0]
+            lonly = not (r0.get("dims") or {}).get("q") and not (r0.get("dims") or {}).get("s")
+            if r0.get("thin") and lonly and key[0] == "coneqp":
+                # the input class of the listed kkt_chol2 finding (rank([P; G]) < n): a run that returns 'optimal' with a wrong point there
+                # also disagrees with the other runs - the same finding seen through another clause
+                ck.violation("kkt_chol2|rank([P;G])<n|first-cholesky-%s-singularity" % ("detects" if r0.get("chol_detects") else "misses"),
+                             "entry points disagree on the optimal value of an instance whose matrix [P; G] is rank deficient: %s" % vals, r0)
+                continue
             ck.violation("%s|objectives-disagree" % key[0], "entry points disagree on the optimal value of one instance: %s" % vals, rs[0])
     for r in runs[:2]:
         ck.sample({"cfg": r["cfg"], "truth": r["kind"], "dims": r["dims"], "outcome": r["status"]})
